@@ -15,7 +15,7 @@ TECHNIQUE = 'runtime post-condition monitor vs exact propagator (60-digit mpmath
 RULE = ('cases = calls of response_series / nigam_and_jennings_response / AccSignal.response_series on generated records '
         '(14 shape classes incl. impulses, hats, steps, zero-padded, alternating, integer-valued, windows of the shipped '
         'ground motion; lengths 2..400 quick / up to 20000 thorough; amplitudes 1e-12..1e12; float64/float32/int64/narrow and unsigned int/list containers, '
-        'strided, negative-stride and read-only views; integer-valued period containers; xi=0 as Python int; positional and keyword calls) x dt log-uniform [1e-3,1], nice decimals and extreme time bases 1e-9..1e3 x 6 periods per call with T/dt log-uniform over [0.2,2e4] '
+        'strided, negative-stride and read-only views; integer-valued period containers; xi=0 as Python int; positional and keyword calls) x dt log-uniform [1e-3,1], nice decimals and extreme time bases 1e-9..1e3 x 1..8 periods per call (4 %: 31..256 periods at and around powers of two, first/last/block-boundary rows always judged) with T/dt log-uniform over [0.2,2e4] '
         'plus pinned {0.2,0.5,1,2,5.9,6,6.1,20,2e4}, optional leading 0 x xi in {0,.02,.05,.2,.5,.9,.99,1-1e-6,1-1e-9,'
         '1-1e-12,U(0,1)}; object-level histories call, mutate values, call again. distinct = digest(record, dt, periods, '
         'xi, entry point); non-trivial = record not identically zero and at least one period > 0.')
@@ -106,9 +106,13 @@ def judge(ctx, acc, dt, periods, xi, result, entry, rows=None):
     if rows is not None:
         idx = [j for j in idx if j in rows]
     elif len(idx) > MAX_ROWS:
-        sel = ctx.rng.choice(len(idx), size=MAX_ROWS, replace=False)
-        ctx.observe('period-rows-not-sampled', len(idx) - MAX_ROWS)
-        idx = [idx[k] for k in sorted(sel)]
+        # first and last row, the rows on either side of power-of-two block boundaries, and a random fill
+        must = {idx[0], idx[-1]} | {j for j in idx if j in (31, 32, 63, 64, 65, 127, 128, 129)}
+        must = set(sorted(must)[:MAX_ROWS])
+        rest = [j for j in idx if j not in must]
+        sel = ctx.rng.choice(len(rest), size=min(len(rest), MAX_ROWS + 4 - len(must)), replace=False) if rest else []
+        ctx.observe('period-rows-not-sampled', len(idx) - len(must) - len(sel))
+        idx = sorted(must | {rest[k] for k in sel})
     ru, rv = X.response(rec, dt, per[idx], xi)
     amax = float(np.max(np.abs(rec)))
     for k, j in enumerate(idx):
@@ -194,6 +198,9 @@ XIS = [0.0, 0.02, 0.05, 0.2, 0.5, 0.9, 0.99, 1 - 1e-6, 1 - 1e-9, 1 - 1e-12]
 PINNED = [0.2, 0.5, 1.0, 2.0, 5.9, 6.0, 6.1, 20.0, 2e4]
 
 
+MANY = [31, 32, 33, 63, 64, 65, 100, 127, 128, 129, 192, 256]
+
+
 def draw_case(rng, tier):
     if tier == 'quick':
         n = int(rng.choice([2, 3, 4, 5, 8])) if rng.random() < 0.2 else int(rng.integers(9, 401))
@@ -205,8 +212,14 @@ def draw_case(rng, tier):
     dt = gen.dt(rng, 'log' if rng.random() < 0.6 else 'nice')
     if rng.random() < 0.15:     # extreme time bases (nanoseconds .. kiloseconds): "all dt > 0"
         dt = float(10 ** (rng.uniform(-9, -3) if rng.random() < 0.6 else rng.uniform(0, 3)))
-    ratios = 10 ** rng.uniform(np.log10(0.2), np.log10(2e4), size=6)
-    for k in range(6):
+    # the LENGTH of the period list is an input dimension of its own: 1 (a scalar-like call), 2..8, and 4 % of the cases at and
+    # around the block sizes a vectorised implementation might use
+    r = rng.random()
+    P = 1 if r < 0.12 else (int(MANY[int(rng.integers(len(MANY)))]) if r < 0.16 else int(rng.integers(2, 9)))
+    if P > 8 and n > 150:
+        x, n = x[:150], 150
+    ratios = 10 ** rng.uniform(np.log10(0.2), np.log10(2e4), size=P)
+    for k in range(P):
         if rng.random() < 0.25:
             ratios[k] = PINNED[int(rng.integers(len(PINNED)))]
     ratios = np.clip(ratios, 0.2, 2e4)
